@@ -696,6 +696,36 @@ func (s *CatSc) execute(env *core.Env) (ro runOut) {
 		if err != nil {
 			panic(err)
 		}
+		// ports are addressed by their number, not by their position in the list
+		byNumIn := func(l []drivers.In) []drivers.In {
+			out := make([]drivers.In, len(l))
+			for _, p := range l {
+				if p.Number() >= 0 && p.Number() < len(l) {
+					out[p.Number()] = p
+				}
+			}
+			return out
+		}
+		byNumOut := func(l []drivers.Out) []drivers.Out {
+			out := make([]drivers.Out, len(l))
+			for _, p := range l {
+				if p.Number() >= 0 && p.Number() < len(l) {
+					out[p.Number()] = p
+				}
+			}
+			return out
+		}
+		ins, outs = byNumIn(ins), byNumOut(outs)
+		for _, p := range ins {
+			if p == nil {
+				panic("driver does not list the in ports 0..n-1 of the helper")
+			}
+		}
+		for _, p := range outs {
+			if p == nil {
+				panic("driver does not list the out ports 0..n-1 of the helper")
+			}
+		}
 		var threads []uint64
 		do := func(thread string, idx int, op string, f func() (error, int64)) {
 			i := appendCall(&calls, &nCalls, callRec{thread: thread, idx: idx, op: op, start: now()})
